@@ -50,15 +50,21 @@ OutputContextStack::~OutputContextStack()
 void
 OutputContextStack::pushContext(FormatterListener*  theListener)
 {
-    ++m_stackPosition;
-    ++m_stackSize;
-
-    if (m_stackPosition == m_stack.end())
+    // Grow the stack first: if that fails, the position and the size
+    // must still describe the stack as it is, because reset() pops
+    // whatever they say is there.
+    if (m_stackPosition + 1 == m_stack.end())
     {
         m_stack.resize(m_stack.size() + 1);
 
         m_stackPosition = m_stack.end() - 1;
     }
+    else
+    {
+        ++m_stackPosition;
+    }
+
+    ++m_stackSize;
 
     if (theListener != 0)
     {
